@@ -1,3 +1,4 @@
+import Fpdec.Kernels.TryFromFloat
 import Fpdec.Kernels.Float
 import Fpdec.Lemmas.FromFloat
 import Fpdec.Props.C13_Sites
@@ -189,5 +190,18 @@ theorem kernel_normalize (prof : Profile) (c : Int) (n : Nat) (hn : n < 256) :
     Gen.K.normalize prof c n = .ok (normalize c n) := Kernels.normalize_eq prof c n hn
 theorem kernel_approx_rational (prof : Profile) (a d : Int) :
     Gen.K.approx_rational prof a d = approxRational prof a d := Kernels.approx_rational_eq prof a d
+
+theorem kernel_f64_decode (prof : Profile) (bits : Nat) (hb : bits < 18446744073709551616) :
+    Gen.K.f64_decode prof bits = floatDecode Spec.FloatFmt.f64 bits := Kernels.f64_decode_eq prof bits hb
+theorem kernel_f32_decode (prof : Profile) (bits : Nat) (hb : bits < 4294967296) :
+    Gen.K.f32_decode prof bits = floatDecode Spec.FloatFmt.f32 bits := Kernels.f32_decode_eq prof bits hb
+/-- the whole of `impl TryFrom<f64> for Decimal` / `impl TryFrom<f32> for Decimal`, as translated from the source on this run,
+    is the model function the property theorems above are about -/
+theorem kernel_try_from_f64 (prof : Profile) (bits : Nat) (hb : bits < 18446744073709551616) :
+    Gen.K.try_from_f64 prof bits = Kernels.floatResult <$> tryFromFloat prof Spec.FloatFmt.f64 bits :=
+  Kernels.try_from_f64_eq prof bits hb
+theorem kernel_try_from_f32 (prof : Profile) (bits : Nat) (hb : bits < 4294967296) :
+    Gen.K.try_from_f32 prof bits = Kernels.floatResult <$> tryFromFloat prof Spec.FloatFmt.f32 bits :=
+  Kernels.try_from_f32_eq prof bits hb
 
 end Fpdec.Props.C13
